@@ -979,6 +979,8 @@ impl FunctionCompiler<'_> {
             }
             hir::Expr::Index { source, index } => {
                 if self.tys[self.loc][expr].is_zero_sized() {
+                    // there is no item to load, but the index still gets evaluated and checked
+                    self.compile_zero_sized_index(source, index);
                     return None;
                 }
 
@@ -2484,6 +2486,61 @@ impl FunctionCompiler<'_> {
                 }
             }
         }
+    }
+
+    /// `source[index]` where the items of `source` are zero-sized.
+    ///
+    /// Nothing is read, but the two expressions are evaluated, and an index that is out of
+    /// bounds is an error like anywhere else
+    fn compile_zero_sized_index(&mut self, source: Idx<hir::Expr>, index: Idx<hir::Expr>) {
+        let mut source_ty = self.tys[self.loc][source];
+        // an array of zero-sized items is zero-sized itself (this is `None`), a slice of them
+        // still has its length and a pointer
+        let source = self.compile_expr(source);
+
+        let mut required_derefs = 0;
+        while let Some((_, sub_ty)) = source_ty.as_pointer() {
+            source_ty = sub_ty;
+            required_derefs += 1;
+        }
+
+        let index_ty = self.tys[self.loc][index];
+        let index = self.compile_expr(index).unwrap();
+        let naive_index =
+            super::cast_ty_to_cranelift(&mut self.builder, index, index_ty, self.ptr_ty);
+
+        let len = if let Some((len, _)) = source_ty.as_array() {
+            self.builder.ins().iconst(self.ptr_ty, len as i64)
+        } else {
+            assert!(source_ty.is_slice());
+
+            let mut source = source.expect("slices are never zero-sized");
+            for _ in 1..required_derefs {
+                source = self
+                    .builder
+                    .ins()
+                    .load(self.ptr_ty, MemFlags::trusted(), source, 0);
+            }
+
+            // the len field is at offset 0
+            self.builder
+                .ins()
+                .load(self.ptr_ty, MemFlags::trusted(), source, 0)
+        };
+
+        let is_good_index = self
+            .builder
+            .ins()
+            .icmp(IntCC::UnsignedLessThan, naive_index, len);
+
+        self.compile_unreachablez(
+            is_good_index,
+            Some(if source_ty.is_array() {
+                "array index out of bounds"
+            } else {
+                "slice index out of bounds"
+            }),
+        );
     }
 
     fn compile_binary(
